@@ -22,6 +22,8 @@ DECIDED = ('"every interleaving" is decided by confinement, not by exploring sch
            'scratch buffers, no class attributes, no incrementally filled caches.')
 DECIDED_MORE = ('Also: stores into the application object / router / routing tree / routes made on the request path (through alias chains from self.<attr>) are shared writes.')
 DECIDED = DECIDED + ' ' + DECIDED_MORE
+DECIDED_R6 = ('Round 6: emit iterates a snapshot; shared error objects are read-only on the rendering path; per-request __init__ stores only into per-thread slots.')
+DECIDED = DECIDED + ' ' + DECIDED_R6
 NOT_DECIDED = ('user handler code; C-level atomicity of dict/list operations (assumed); equality of each response with the one '
                'served alone is implied by confinement only for framework state, not proved for arbitrary handlers.')
 ASSUMPTIONS = ['builtin container operations are atomic under the GIL', 'threading.local gives each thread its own attributes',
